@@ -41,7 +41,11 @@ Definition complete_ok (c : case) (ob : obs) : bool :=
 Fixpoint causal_from (pos : Z) (ops : list oentry) : bool :=
   match ops with
   | [] => true
-  | o :: t => ((oe_refpos o <? 0) || (oe_refpos o <? pos)) && causal_from (pos + 1) t
+  | o :: t => ((oe_refpos o <? 0) || (oe_refpos o <? pos))
+              (* a reported relation must refer to something that is listed (-1: the referent is not in the listing at all;
+                 -2: the referent is a sub-circuit, whose operations are listed in its place) *)
+              && negb (match oe_rel o with Some _ => oe_refpos o =? -1 | None => false end)
+              && causal_from (pos + 1) t
   end.
 Definition causal_ok (ob : obs) : bool := causal_from 0 (o_ops ob).
 
